@@ -145,15 +145,16 @@ type upstream struct {
 	cancel context.CancelFunc
 	note   *notifier
 
-	mu       sync.Mutex
-	conns    []*srvConn
-	subs     map[string]*srvSub
-	scripts  map[string]script
-	holdUp   chan struct{} // non-nil: requests arriving wait for it before the upgrade / the response headers
-	holdAck  chan struct{} // non-nil: connection_ack is withheld until it is closed
-	ackDelay []time.Duration
-	yieldy   bool // auto senders yield between messages
-	problems []string
+	mu        sync.Mutex
+	conns     []*srvConn
+	subs      map[string]*srvSub
+	scripts   map[string]script
+	holdUp    chan struct{} // non-nil: requests arriving wait for it before the upgrade / the response headers
+	holdAck   chan struct{} // non-nil: connection_ack is withheld until it is closed
+	ackDelay  []time.Duration
+	yieldy    bool          // auto senders yield between messages
+	pongDelay time.Duration // pongs are written this long after the ping arrived (0 = at once)
+	problems  []string
 }
 
 var keyRe = regexp.MustCompile(`k:\s*"([^"]+)"`)
@@ -406,8 +407,9 @@ func (u *upstream) serveWS(w http.ResponseWriter, r *http.Request) {
 			u.mu.Lock()
 			c.pings++
 			silent := c.silent
+			pongDelay := u.pongDelay
 			u.mu.Unlock()
-			if !silent {
+			pong := func() {
 				if c.write(wireMsg{Type: "pong"}) == nil {
 					lat := time.Since(t0)
 					u.mu.Lock()
@@ -416,7 +418,16 @@ func (u *upstream) serveWS(w http.ResponseWriter, r *http.Request) {
 						c.maxPongLat = lat
 					}
 					u.mu.Unlock()
+					u.note.bump()
 				}
+			}
+			switch {
+			case silent:
+			case pongDelay > 0:
+				// answered late on purpose, without holding up the reading of the client's messages
+				time.AfterFunc(pongDelay, pong)
+			default:
+				pong()
 			}
 		case "pong", "connection_terminate":
 		default:
